@@ -216,12 +216,72 @@ def handleObj (kind steps : String) (impl : String) : Verdict := Id.run do
     j := j + 1
   return ⟨joinOr ms "/", ok, s!"obj:{kind}:n={min specs.length 8}:gets={min gets 4}:same-length-successor={sameLen}"⟩
 
+/-- `life`: path spelling and neighbours do not enter the model (the spelled path is the path; neighbours are other
+    paths, theorem obj_frame); steps as in `obj` plus `die` (after which a new object reads the same file) -/
+def handleLife (kind spelling sibs steps : String) (impl : String) : Verdict := Id.run do
+  let specs := items steps ";"
+  let nsib := (items sibs ",").eraseDups.length +
+    (if spelling = "dotdot" && !(items sibs ",").contains "5" then 1 else 0)
+  let outs := (items impl "/").map (·.splitOn ",")
+  if outs.length != specs.length then return ⟨"UNPARSABLE", false, "life:unparsable"⟩
+  let mut fs : FS := fun _ => none
+  let mut seen : List (Nat × Nat) := []
+  let mut tmps : List Path := []
+  let mut ms : List String := []
+  let mut ok := true
+  let mut allowed : List (Option Bytes) := [none]
+  let mut j := 0
+  let mut dies := 0
+  for (spec, o) in specs.zip outs do
+    if spec = "g" then
+      let file := classifySeq seen (fs pPath)
+      ms := ms ++ [s!"g,{if file.startsWith "v" then file else "err"},{nsib}"]
+      match o with
+      | ["g", res, sib] =>
+        let obs := unclassifySeq seen res
+        ok := ok && allowed.contains obs && sib == toString nsib
+        allowed := [obs]
+      | _ => ok := false
+    else
+      match spec.splitOn ":", o with
+      | [mode, k, _], ["s", c, l, ist, ifile, _ileft, isib] =>
+        let some c := c.toNat? | return ⟨"UNPARSABLE", false, "life:unparsable"⟩
+        let some l := l.toNat? | return ⟨"UNPARSABLE", false, "life:unparsable"⟩
+        let k := k.toNat?.getD 0
+        let newB := synth c l
+        seen := seen ++ [(c, l)]
+        let t : Path := s!"tmp{j}"
+        tmps := tmps ++ [t]
+        let fault : Fault :=
+          if mode = "fail" && k < l then .fail 1 k []
+          else if mode = "die" && k < l then .die 1 k
+          else .none
+        let prog := storeAtomic pPath t newB
+        fs := exec prog fault fs
+        let st := status prog fault
+        if st == .died then dies := dies + 1
+        let left := (tmps.filter fun t => (fs t).isSome).length
+        ms := ms ++ [s!"s,{c},{l},{showStatus st},{classifySeq seen (fs pPath)},{left},{nsib}"]
+        let fobs := unclassifySeq seen ifile
+        ok := ok && isib == toString nsib
+        if ist = "ok" then
+          ok := ok && fobs == some newB
+          allowed := [some newB]
+        else if ist = "err" || ist = "died" then
+          ok := ok && (allowed.contains fobs || fobs == some newB)
+          allowed := allowed ++ [some newB]
+        else ok := false
+      | _, _ => return ⟨"UNPARSABLE", false, "life:unparsable"⟩
+    j := j + 1
+  return ⟨joinOr ms "/", ok, s!"life:{kind}:{spelling}:sib={min nsib 3}:dies={min dies 2}"⟩
+
 def handle (op : String) (args : List String) (impl : String) : Option Verdict :=
   match op, args with
   | "store", [kind, mode, k, oldS, _newS] => some (handleStore false kind mode k oldS impl)
   | "storero", [kind, mode, k, oldS, _newS] => some (handleStore true kind mode k oldS impl)
   | "seq", [kind, steps] => some (handleSeq kind steps impl)
   | "obj", [kind, steps] => some (handleObj kind steps impl)
+  | "life", [kind, spelling, sibs, steps] => some (handleLife kind spelling sibs steps impl)
   | _, _ => none
 
 end Sygma.Drv.C18
